@@ -101,3 +101,32 @@ Definition monotonic_factorization (arr : list (option Z)) : Z * list Z * list Z
       let '(c, st) := mono_loop t 1 {| m_codes := [0]; m_labels := [v]; m_prev := v |} in
       (c, m_codes st, m_labels st)
   end.
+
+(* ---- _combine_factorizations as written: `uniques = codes`, the stacked code matrix is re-used to gather
+   the uniques (row group_id is overwritten with row i).  State: the matrix, the tracker, group_id, the
+   combined codes written so far. ---- *)
+Record ipstate := { ip_m : list (list Z); ip_tracker : list Z; ip_gid : Z; ip_comb_rev : list Z }.
+
+Definition inplace_step (weights : list Z) (st : ipstate) (i : nat) : ipstate :=
+  let row := get [] (ip_m st) i in                        (* codes[i], read from the matrix as it is NOW *)
+  let k := weight_code_sum row weights in
+  if k =? -1 then
+    {| ip_m := ip_m st; ip_tracker := ip_tracker st; ip_gid := ip_gid st; ip_comb_rev := -1 :: ip_comb_rev st |}
+  else
+    let code := get (-1) (ip_tracker st) (Z.to_nat k) in
+    if code =? -1 then
+      {| ip_m := upd (ip_m st) (Z.to_nat (ip_gid st)) row;    (* uniques[group_id] = codes[i], same array *)
+         ip_tracker := upd (ip_tracker st) (Z.to_nat k) (ip_gid st); ip_gid := ip_gid st + 1;
+         ip_comb_rev := ip_gid st :: ip_comb_rev st |}
+    else
+      {| ip_m := ip_m st; ip_tracker := ip_tracker st; ip_gid := ip_gid st; ip_comb_rev := code :: ip_comb_rev st |}.
+
+Definition combine_inplace_state (rows : list (list Z)) (weights : list Z) (cart : nat) : ipstate :=
+  fold_left (inplace_step weights) (seq 0 (length rows))
+            {| ip_m := rows; ip_tracker := repeat (-1) cart; ip_gid := 0; ip_comb_rev := [] |}.
+Definition combine_inplace (rows : list (list Z)) (weights : list Z) (cart : nat) : list Z * list (list Z) :=
+  let st := combine_inplace_state rows weights cart in
+  (rev (ip_comb_rev st), firstn (Z.to_nat (ip_gid st)) (ip_m st)).        (* uniques[:group_id] *)
+(* what the stacked matrix holds afterwards (observable: the caller of the kernel owns it) *)
+Definition combine_inplace_matrix (rows : list (list Z)) (weights : list Z) (cart : nat) : list (list Z) :=
+  ip_m (combine_inplace_state rows weights cart).
